@@ -225,9 +225,10 @@ class PriorityQueue(Generic[P, T]):
         return e.priority
 
     def copy(self) -> PriorityQueue[P, T]:
-        """Create a shallow copy of the priority queue"""
+        """Create a copy of the priority queue.  The entries are copied, so that
+        rescheduling an object in one queue does not affect the other."""
         new = type(self)()
-        new._pq[:] = self._pq[:]
+        new._pq[:] = [PriEntry(e.priority, e.sequence, e.obj) for e in self._pq]
         new._sequence = self._sequence
         return new
 
